@@ -18,7 +18,7 @@ PROP = 'C03'
 LEVEL = 'exploration'
 BATCH = 300
 TIERS = {
-    'quick': {'runs': 150000, 'budget': 45},
+    'quick': {'runs': 900000, 'budget': 35},
     'thorough': {'runs': 8_000_000, 'budget': 480},
 }
 RULE = ('seeded handler programs: result kind (str, bytes, empty values, list/tuple/generator/custom iterables of str or '
@@ -140,6 +140,15 @@ def gen_case(rng, tier):
         'accept_json': rng.random() < 0.15,
         'fault': None,
     }
+    if rng.random() < 0.07:
+        # the handler reads a malformed / oversized body: the answer is one of the process-wide errors_map
+        # responses, the same object for every such request; a priming request with another URL goes first
+        case['result'] = {'k': 'read_body', 'bad': rng.choice(['chunk', 'big', 'json'])}
+        case['method'] = rng.choice(['POST', 'PUT'])
+        case['path'] = 'hit'
+        case['query'] = 'q=' + 'x' * rng.choice([0, 1, 7, 30])
+        case['prime'] = {'query': 'p=' + 'y' * rng.choice([0, 3, 12, 40]), 'accept_json': rng.random() < 0.4} \
+            if rng.random() < 0.8 else None
     for _ in range(rng.choice([0, 0, 1, 2, 3])):
         r = rng.random()
         if r < 0.4:
@@ -149,7 +158,7 @@ def gen_case(rng, tier):
             case['mutations'].append(['header', h[0], h[1]])
         else:
             case['mutations'].append(['cookie', rng.choice(['sid', 'c2']), rng.choice(['v1', 'a b', 'ünï'])])
-    for code in rng.sample([404, 405, 500, 418], rng.choice([0, 0, 1, 2])):
+    for code in rng.sample([404, 405, 500, 418, 400, 413], rng.choice([0, 0, 1, 2])):
         case['error_handlers'].append([code, rng.choice(['str', 'bytes', 'list', 'empty'])])
     if rng.random() < 0.5:
         sites = ['handler', 'gen_first_next']
@@ -292,6 +301,11 @@ def build(spec, ctx, label='r'):
     """-> python object for a result spec; for how='raise' raises"""
     import ombott
     k = spec['k']
+    if k == 'read_body':
+        rq = ctx.app.request
+        if spec['bad'] == 'json':
+            return repr(rq.json)
+        return rq.body.read()
     if k == 'str':
         return spec['v']
     if k == 'bytes':
@@ -394,8 +408,32 @@ def run_case(case):
         app.error(code)(eh)
 
     path = '/nowhere' if case['path'] == 'miss' else '/r/sub'
-    env = make_environ(case['method'], path, file_wrapper=(FakeFileWrapper if case['file_wrapper'] else None),
-                       headers=({'Accept': 'application/json'} if case.get('accept_json') else None))
+    ctx.app = app
+
+    def environ(query, accept_json):
+        kw = {}
+        if case['result']['k'] == 'read_body':
+            import io
+            bad = case['result']['bad']
+            if bad == 'chunk':
+                kw = {'stream': io.BytesIO(b'5\r\nabc'), 'chunked': True}
+            elif bad == 'big':
+                kw = {'stream': io.BytesIO(b'z' * 300), 'content_length': 300}
+            else:
+                kw = {'stream': io.BytesIO(b'{"a": ]'), 'content_length': 7, 'content_type': 'application/json'}
+        return make_environ(case['method'], path, query, file_wrapper=(FakeFileWrapper if case['file_wrapper'] else None),
+                            headers=({'Accept': 'application/json'} if accept_json else None), **kw)
+
+    if case['result']['k'] == 'read_body':
+        app.setup({'max_body_size': 100})
+        if case.get('prime'):
+            saved_fault, ctx.fault = ctx.fault, None
+            call_app(app, environ(case['prime']['query'], case['prime']['accept_json']))
+            ctx.fault = saved_fault
+            del events[:]
+            del ctx.iterables[:]
+            res['probes']['primed_shared_error_response'] += 1
+    env = environ(case.get('query', ''), case.get('accept_json'))
     r = call_app(app, env, stop_after=case['stop_after'], on_event=lambda *a: events.append(a))
 
     for e in events:
@@ -542,7 +580,9 @@ def shrink_candidates(case):
         yield dict(case, accept_json=False)
     if case['file_wrapper']:
         yield dict(case, file_wrapper=False)
-    if case['method'] != 'GET':
+    if case.get('prime') and case['prime'].get('accept_json'):
+        yield dict(case, prime=dict(case['prime'], accept_json=False))
+    if case['method'] != 'GET' and case['result']['k'] != 'read_body':
         yield dict(case, method='GET')
     r = case['result']
     if r['k'] == 'resp' and isinstance(r.get('body'), dict) and r['cls'] == 'HTTPResponse':
@@ -556,7 +596,7 @@ def shrink_candidates(case):
             yield dict(case, result=dict(r, lead=0))
         for it in shrink.list_cands(r['items']):
             yield dict(case, result=dict(r, items=it))
-    if r['k'] != 'str':
+    if r['k'] not in ('str', 'read_body'):
         yield dict(case, result={'k': 'str', 'v': 'x'})
     if case.get('fault') and case['fault']['exc'] != 'ValueError':
         yield dict(case, fault=dict(case['fault'], exc='ValueError'))
